@@ -115,10 +115,24 @@ type Instance struct {
 	clustered bool
 }
 
-// settledPeer is the notify.Peer of cluster mode: the mesh counts as settled.
-type settledPeer struct{}
+// settlingPeer is the notify.Peer of cluster mode: like cluster.Peer.WaitReady it blocks until the mesh counts as
+// settled (ready) or the context ends.
+type settlingPeer struct{ ready time.Time }
 
-func (settledPeer) WaitReady(context.Context) error { return nil }
+func (p settlingPeer) WaitReady(ctx context.Context) error {
+	d := time.Until(p.ready)
+	if d <= 0 {
+		return nil
+	}
+	tm := time.NewTimer(d)
+	defer tm.Stop()
+	select {
+	case <-tm.C:
+		return nil
+	case <-ctx.Done():
+		return ctx.Err()
+	}
+}
 
 type scripted struct {
 	inst     *Instance
@@ -378,7 +392,7 @@ func (in *Instance) reload(spec *Config) error {
 		// app/cluster.go clusterWait: one peer timeout per position
 		pt := time.Duration(in.sim.sc.Opts.PeerTimeout) * time.Second
 		wait = func() time.Duration { return time.Duration(in.position()) * pt }
-		peer = settledPeer{}
+		peer = settlingPeer{ready: in.startTime.Add(time.Duration(in.sim.sc.Opts.Settle) * time.Second)}
 	}
 	timeoutFunc := func(d time.Duration) time.Duration {
 		if d < notify.MinTimeout {
@@ -599,6 +613,10 @@ func (in *Instance) getGroups() ([]APIGroup, []DispGroup) {
 	if code != 200 {
 		in.sim.errf("GET /alerts/groups -> %d %s", code, resp)
 		return nil, nil
+	}
+	// a read changes nothing: the same request again, at the same instant, is answered the same
+	if code2, resp2 := in.do("GET", "/alerts/groups?active=true&silenced=true&inhibited=true&muted=true", nil); code2 != 200 || !bytes.Equal(resp, resp2) {
+		in.sim.errf("GET /alerts/groups twice at the same instant: first answer %s, second answer (%d) %s", resp, code2, resp2)
 	}
 	var gs []struct {
 		Labels   map[string]string `json:"labels"`
